@@ -261,7 +261,7 @@ FN('try_read_100', props=['C11', 'C10', 'C12', 'C09', 'C01'], ret='r',
    head='broadcast use crate::httparse::axiom_outcome_ok;',
    )
 FN('can_keep_await_100', props=['C11'], ret='r', ensures=[('aux.can_keep_await_100', 'r == self.inner.await_100_continue')])
-FN('proceed', props=['C09', 'C11'], ret='r', mutself=True,
+FN('proceed', props=['C09', 'C11', 'C12'], ret='r', mutself=True,
    requires=[('C09.wf', 'self.inner.wf_await100()')],
    ensures=[('C09/C11.body_sent_iff_not_refused', '''match r {
             Ok(Await100Result::SendBody(f)) => self.inner.should_send_body && f.inner == self.inner && f.inner.wf_send_body(),
@@ -341,10 +341,10 @@ FN('try_response', props=['C05', 'C10', 'C11', 'C14', 'C12', 'C09', 'C01', 'C06'
             .cloned()''', 'response.headers().last_value_of("location")'),
        ('N9', 'response.headers().iter().has("connection", "close")', 'headers_has(response.headers(), "connection", "close")'),
    ])
-FN('can_proceed', props=['C09', 'C05'], ret='r',
+FN('can_proceed', props=['C09', 'C05', 'C12'], ret='r',
    requires=[('C09.wf', 'self.inner.wf_recv_response()')],
    ensures=[('C09.can_proceed_iff_response_received', 'r == (self.inner.bstate().reader is Some)')])
-FN('proceed', props=['C09', 'C06', 'C08', 'C10', 'C15'], ret='r', mutself=True,
+FN('proceed', props=['C09', 'C06', 'C08', 'C10', 'C15', 'C12'], ret='r', mutself=True,
    requires=[('C09.wf', 'self.inner.wf_recv_response()')],
    ensures=[
        ('C09.proceed_iff_can_proceed', 'r is Some <==> self.inner.bstate().reader is Some'),
@@ -388,11 +388,11 @@ FN('body_mode', props=['C06', 'C08'], ret='r',
    requires=[('C09.wf', 'self.inner.wf_received()')],
    ensures=[('C06.body_mode', '''match self.inner.bstate().reader->Some_0 { BodyReader::NoBody => r == BodyMode::NoBody, BodyReader::LengthDelimited(v) => r == BodyMode::LengthDelimited(v),
             BodyReader::Chunked(_) => r == BodyMode::Chunked, BodyReader::CloseDelimited => r == BodyMode::CloseDelimited }''')])
-FN('can_proceed', props=['C09', 'C07', 'C08'], ret='r',
+FN('can_proceed', props=['C09', 'C07', 'C08', 'C12'], ret='r',
    requires=[('C09.wf', 'self.inner.wf_received()')],
    ensures=[('C07/C08/C09.can_proceed_iff_complete_or_close_delimited', '''r == match self.inner.bstate().reader->Some_0 { BodyReader::NoBody => true, BodyReader::LengthDelimited(v) => v == 0,
             BodyReader::Chunked(d) => d is Ended, BodyReader::CloseDelimited => true }''')])
-FN('proceed', props=['C09', 'C15'], ret='r',
+FN('proceed', props=['C09', 'C15', 'C12'], ret='r',
    requires=[('C09.wf', 'self.inner.wf_received()')],
    ensures=[('C09/C15.proceed_iff_can_proceed_and_redirect_iff_3xx', '''({
             let ready = match self.inner.bstate().reader->Some_0 { BodyReader::NoBody => true, BodyReader::LengthDelimited(v) => v == 0, BodyReader::Chunked(d) => d is Ended, BodyReader::CloseDelimited => true };
